@@ -1,14 +1,17 @@
 (** C02 — no stale value survives any edit.  Property theorems only. *)
 From Coq Require Import List ZArith Bool.
-From MX Require Import Exec.Model Exec.Spec Exec.Sim Exec.Cover Exec.Quiet Exec.Edits3 Exec.Results Exec.Top.
+From MX Require Import Exec.Model Exec.Spec Exec.Sim Exec.Cover Exec.Quiet Exec.Edits3 Exec.Edits4 Exec.Edits6 Exec.Results Exec.Top.
 Import ListNotations.
 
-(** PARTIAL (what is proved / what is missing is spelled out below).
-    For every model of the formula vocabulary whose formulas never handle the
-    failure of a callee ([defs_ok]: recorded finding D20), and every finite
-    interleaving [ops] of evaluations with value assignments / overwrites,
-    clear_at, clear, clear_all, formula changes, cached-flag changes and
-    recalculation-option changes: in the state reached,
+(** For every model of the formula vocabulary whose formulas never handle the
+    failure of a callee ([defs_ok]: recorded finding D20) and read by name
+    only references visible in their space ([refn_ok], a static scoping
+    condition), and every finite interleaving [ops] of evaluations with
+    value assignments / overwrites, clear_at, clear, clear_all, formula
+    changes, cached-flag changes, recalculation-option changes and changes of
+    references (read by name or by attribute path, in the own space, another
+    space or the model, directly or through uncached cells): in the state
+    reached,
     - the dependency-coverage invariant [Quiet] holds,
     - every held value is user-assigned or equals the value of the uncached
       specification evaluator under the CURRENT definitions and inputs,
@@ -16,33 +19,35 @@ Import ListNotations.
       other than the depth limit is the specification's error).
     What was cached earlier therefore never changes a later answer.
 
-    Missing for the full statement: (1) reference changes ([OpSetRef],
-    excluded by [ops_ok]; the model executes them and the correspondence
-    checks them, the preservation proof is not finished); (2) creating,
-    deleting, renaming cells and spaces and base changes live in the Defs /
-    Names / Alive layers (C03, C11-C13), not in this executor model; (3) the
+    PARTIAL with respect to the property text: (1) creating, deleting,
+    renaming cells and spaces, base changes, creating / shadowing / deleting
+    references are not operations of this executor model (they live in the
+    Defs / Names / Alive layers, C03, C11-C13, and are covered here only
+    through the "derived cells" realisation of the correspondence); (2) the
     statement is "answers = specification of the current definitions" rather
     than the differential "live model = replay of the edits only"; the latter
     follows once the definition/input part of the state is shown to evolve
-    independently of the cache (not mechanised). *)
+    independently of the cache (not mechanised; the differential itself is run
+    on the implementation by the check). *)
 Theorem C02_answers_follow_current_definitions_partial :
   forall fuel cells refs maxd ops xs st,
-  defs_ok cells -> ops_ok ops ->
+  defs_ok cells -> refn_ok (init cells refs maxd) -> ops_ok2 fuel (init cells refs maxd) ops ->
   run fuel (init cells refs maxd) ops = (xs, st) -> no_fuel_out xs -> s_reent st = false ->
   Quiet st /\
   (forall i v, lookup_data (s_data st) i = Some v ->
      mem_item i (s_inputs st) = true \/ exists f, spec_eval f st i = Val v) /\
   (forall i r st', eval_top fuel st i = (r, st') -> r <> OutOfFuel ->
      agrees r (fun g => spec_eval g st i)).
-Proof. exact history_correct. Qed.
+Proof. exact history_correct2. Qed.
 Print Assumptions C02_answers_follow_current_definitions_partial.
 
 (** one-step form: every operation preserves the invariant (one case per edit
-    kind; inside, the locality lemma has one case per kind of read) *)
+    kind; inside, the locality lemma has one case per kind of read: cached
+    element, uncached cells, reference by attribute, reference by name) *)
 Theorem C02_step_preserves_invariant : forall fuel st o x st',
-  step fuel st o = (x, st') -> x <> OFuel -> Quiet st -> s_reent st = false -> op_ok o ->
-  s_reent st' = true \/ Quiet st'.
-Proof. exact step_quiet. Qed.
+  step fuel st o = (x, st') -> x <> OFuel -> Quiet st -> refn_ok st -> s_reent st = false -> op_ok2 st o ->
+  s_reent st' = true \/ (Quiet st' /\ refn_ok st').
+Proof. exact step_quiet2. Qed.
 Print Assumptions C02_step_preserves_invariant.
 
 (** non-vacuity: an edit history over a model with a reference, an uncached
@@ -53,6 +58,7 @@ Definition ex2_cells : list (cid * cell) :=
 Example C02_example :
   let r := run 200 (init ex2_cells [(0, (Some 1, VInt 5))] 50)
              [OpEval (0, [VInt 3]); OpSetFormula 1 [SAssign (EBin Add (EPar 0) (EConst (VInt 1)))] 1 [];
-              OpEval (0, [VInt 3]); OpSetValue (0, [VInt 4]) (VInt 7); OpEval (0, [VInt 4])] in
-  fst r = [OVal (VInt 11); OOk; OVal (VInt 9); OOk; OVal (VInt 7)] /\ s_reent (snd r) = false.
+              OpEval (0, [VInt 3]); OpSetValue (0, [VInt 4]) (VInt 7); OpEval (0, [VInt 4]);
+              OpSetRef 0 (VInt 6); OpEval (0, [VInt 3])] in
+  fst r = [OVal (VInt 11); OOk; OVal (VInt 9); OOk; OVal (VInt 7); OOk; OVal (VInt 10)] /\ s_reent (snd r) = false.
 Proof. vm_compute. split; reflexivity. Qed.
